@@ -64,7 +64,7 @@ class Gen(object):
         elif k == 'arr':
             c = Array(self.cls(t['of']))
         elif k == 'attr':
-            c = XmlAttribute(self.cls(t['of']))
+            c = XmlAttribute(self.cls(t['of']), use=t['use']) if t.get('use') else XmlAttribute(self.cls(t['of']))
         else:
             raise ValueError(t)
         occ = {}
